@@ -259,6 +259,24 @@ if f5: S0["multipleOf"] = m
                   '{"oneOf": [{"required": ["a"]}, {"properties": {"a": {"minimum": m}}}, {"maxProperties": 1}]}', group="comp", timeout=120)
     hs += _triple("c01_const_none_and_type_number_bool", f"v: {SCALAR}", SCALAR_PRE, '{"anyOf": [{"const": None}, {"type": "number"}]}', group="lit", timeout=60)
 
+    # third-round rows: schema-form dependencies next to composition / type lists; verdicts must not depend on earlier schemas
+    for sn, sib in (("anyof", '"anyOf": [{"minProperties": 0}, {"type": "null"}]'), ("not", '"not": {"required": ["zz"]}'), ("allof", '"allOf": [True]'),
+                    ("typelist", '"type": ["object", "null"], "title": "TD"'), ("oneof_typed", '"type": "object", "title": "TD", "oneOf": [{"maxProperties": 5}]')):
+        hs += _triple(f"c01_obj_dep_schema_next_to_{sn}", f"mn: int, v: {DV}", DPRE,
+                      f'{{"dependencies": {{"a": {{"required": ["b"], "properties": {{"b": {{"minimum": mn}}}}}}, "b": False, "ab": ["a"]}}, {sib}}}', group="obj", timeout=120,
+                      tier=Q if sn in ("anyof", "typelist") else T, twins=(sn == "anyof"))
+    hs.append(mk("c01_lit_const_then_const", f"c1: Union[int, bool], c2: Union[int, bool], v: Union[int, bool]", [], """
+S1 = {"const": c1, "items": {"const": c2}, "multipleOf": 2}
+S2 = {"const": c2, "items": {"const": c1}, "enum": [c1, c2]}
+a = accepts(parse_s(S1), v) == oracle(S1, v)
+b = accepts(parse_s(S2), v) == oracle(S2, v)
+c = accepts(parse_s(S1), [v]) == oracle(S1, [v])
+return a and b and c
+""", timeout=120, group="lit", covers="two schemas with equal-but-differently-typed literals (1 / true) validated one after the other in one process: each verdict still matches Draft 6"))
+    hs.append(mk("c01_lit_const_then_const__lookalikes", f"c1: Union[int, bool], c2: Union[int, bool], v: Union[int, bool]", [],
+                 "return not (type(c1) is int and c1 == 1 and c2 is True and type(v) is int and v == 1)", kind="witness", timeout=30, group="lit",
+                 covers="witness (1, True, 1): cross-evaluated concretely on the claim (CrossHair bypasses functools.lru_cache, a plain interpreter does not)"))
+
     # ------------------------------------------------------------ comp family
     def comp(name, schema, tier, timeout=40, twins=False):
         return _triple(name, f"m: int, n: int, v: {COMPV}", COMPV_PRE, schema, group="comp", tier=tier, timeout=timeout, twins=twins)
